@@ -38,6 +38,19 @@ def run(cfg, seed, kill, script=None, rmc=False):
                     return []
             return [0.01]
         sim.net.fate = fate
+        def stream_fate(src, dst, n, chunk):
+            # stream transports (lite): after the k-th write of the session the byte stream is a black hole in mode both / c2s / s2c,
+            # or (mode 'break') the underlying connection breaks at the next write
+            if kill is not None and n > kill[0]:
+                if state["dead_at"] is None:
+                    state["dead_at"] = sim.now()
+                to_server = dst == SERVER
+                if kill[1] == "break":
+                    return "break"
+                if kill[1] == "both" or (kill[1] == "c2s" and to_server) or (kill[1] == "s2c" and not to_server):
+                    return "drop"
+            return "deliver"
+        sim.net.stream_fate = stream_fate
         creds, session_key = (None, b"")
         if cfg.credentials:
             creds, session_key = ps.make_credentials(s, random.Random(rng.random()), cfg.key_size)
@@ -240,6 +253,7 @@ def run(cfg, seed, kill, script=None, rmc=False):
                     state_kill = kill
                     if kill is not None:
                         sim.net.fate = lambda tx: [0.01]
+                        sim.net.stream_fate = None
                         log.append(("app", sim.now(), "c", "reconnect", 0, b""))
                         ri = op_start("reconnect")
                         try:
@@ -277,8 +291,10 @@ def run(cfg, seed, kill, script=None, rmc=False):
         out.rnd_groups = [norm(gr) for gr in groups if len(gr) == g]
         if out.rnd_groups: out.rnd.setdefault("c", out.rnd_groups[0])
         if len(out.rnd_groups) > 1: out.rnd.setdefault("s", out.rnd_groups[1])
-        out.n_datagrams = sim.net.ngen
+        out.n_datagrams = sim.net.ngen if cfg.transport != "lite" else getattr(sim.net, "sgen", 0)
         out.bound = bound
+        if cfg.transport == "lite":
+            out.skip_l1 = True
     return out
 
 
